@@ -346,3 +346,81 @@ def oracle_c11(c, x):
             return "eps-copy deserialization of the prefix of length %d (of %d) gave %s, required ReadError or a bounds-check panic" % (k, n, code)
         k += cnt
     return None
+
+
+def schema_rows(c, x):
+    sch = c.iobs.get((x.cid, "schema"), "")
+    m = re.search(r"rows=(\S*)", sch)
+    if not m:
+        return []
+    out = []
+    for r in m.group(1).split(";"):
+        p = r.split("|")
+        if len(p) == 4:
+            out.append((p[0], int(p[1], 16), int(p[2], 16), int(p[3], 16)))
+    return out
+
+
+def impl_need(c, x):
+    """largest unit among the zero-copy blocks recorded by serialize_with_schema (None if some unit is not a power of two)"""
+    nd = 1
+    for (field, off, size, align) in schema_rows(c, x):
+        if field.endswith("zero") and align > 0:
+            if align & (align - 1):
+                return None
+            nd = max(nd, align)
+    return nd
+
+
+def oracle_c02(c, x):
+    st = ser_status(c, x)
+    if st.get("status") != "OK":
+        return None
+    if tinfo(c, x).get("exh") == "1":
+        return None
+    nd = impl_need(c, x)
+    e = c.iobs.get((x.cid, "eps:0"), "")
+    exp = canon_of(c.U, x.t, x.v)
+    if nd is None:
+        if erase_refs(e).startswith("OK " + exp + " "):
+            return None
+        return ("known", "D10", "eps-copy deserialization from an aligned buffer gave %s" % e[:80])
+    if "MISALIGNED" in e or "OUTSIDE" in e:
+        return "eps-copy result holds a reference that is misaligned or outside the buffer"
+    if not erase_refs(e).startswith("OK " + exp + " pos=%s rest=0" % st.get("n")):
+        return "eps-copy deserialization from a buffer aligned to the largest unit did not return the serialized value"
+    f = c.iobs.get((x.cid, "full"), "")
+    if f.startswith("OK") and erase_refs(e) != f:
+        return "eps-copy and full-copy deserialization of the same bytes describe different values"
+    return None
+
+
+def oracle_c12(c, x):
+    st = ser_status(c, x)
+    if st.get("status") != "OK":
+        return None
+    if tinfo(c, x).get("exh") == "1":
+        return None
+    nd = impl_need(c, x)
+    if nd is not None and ser_only(x.t):
+        # an empty SerIter records no block although its reader (the Vec) aligns: take the model's requirement
+        nd = max(nd, int(tinfo(c, x).get("need", "1"), 16))
+    line = c.iobs.get((x.cid, "place"), "")
+    m = re.match(r"(.*) misaligned=(\d+)$", line)
+    if not m:
+        return "no placement observation"
+    if nd is None:
+        return ("known", "D10", "a block unit is not a power of two: placements %s" % m.group(1)[:80])
+    if int(m.group(2)):
+        return "a returned reference is misaligned for its type"
+    base = c.bases.get(x.cid, 0)
+    r = 0
+    for code, cnt in parse_rle(m.group(1)):
+        for _ in range(cnt):
+            want = "OK" if (base + r) % nd == 0 else "AlignmentError"
+            if code != want:
+                return "placement at residue %d (largest unit met: %d) gave %s, required %s" % (r, nd, code, want)
+            r += 1
+    if r != 128:
+        return "placement observation covers %d residues" % r
+    return None
